@@ -89,7 +89,7 @@ fn build_node(kind: u64, token: Arc<()>, children: Vec<Obj>) -> Obj {
 }
 
 fn drop_cases(run: &mut Run, rng: &mut Rng) {
-    let n = run.budget(250, 6000);
+    let n = run.budget(600, 6000);
     let rt = tokio::runtime::Builder::new_current_thread().enable_all().build().unwrap();
     for case_i in 0..n {
         let size = 2 + rng.below(9) as usize;
@@ -216,7 +216,7 @@ impl RecordBatchStream for Scripted {
 }
 
 fn coop_cases(run: &mut Run, rng: &mut Rng) {
-    let n = run.budget(150, 3000);
+    let n = run.budget(300, 3000);
     let rt = tokio::runtime::Builder::new_current_thread().enable_all().build().unwrap();
     for _ in 0..n {
         // scripts long enough to exhaust tokio's budget (128) several times
@@ -435,7 +435,7 @@ fn run_drop(sql: &'static str, parts: usize, tparts: usize, nb: usize, endless: 
 }
 
 fn query_oracle(run: &mut Run, rng: &mut Rng) {
-    let rounds = run.budget(1, 6);
+    let rounds = run.budget(2, 6);
     for _ in 0..rounds {
         for (name, sql) in SHAPES {
             for &(parts, tparts) in &[(1usize, 1usize), (3, 4)] {
